@@ -73,8 +73,9 @@ class EN(object):
         if o.v == 0.0:
             raise DomainError("division by zero")
         v = self.v / o.v
-        return EN(v, self.e / abs(o.v) + _m(abs(self.v), o.e) / (o.v * o.v) + abs(v),
-                  self.u / abs(o.v) + _m(abs(self.v), o.u) / (o.v * o.v))
+        av = abs(o.v)        # divide twice: o.v*o.v underflows for |o.v| ~ 1e-170
+        return EN(v, self.e / av + _m(abs(self.v), o.e) / av / av + abs(v),
+                  self.u / av + _m(abs(self.v), o.u) / av / av)
 
     def __rtruediv__(self, o):
         return EN.lift(o) / self
@@ -336,8 +337,24 @@ class Jet(object):
         return self._compose(self.c[0].erf(), g)
 
     def tanh(self):
-        e2 = (self * 2.0).exp()
-        return (e2 - 1.0) / (e2 + 1.0)
+        # T' = (1 - T^2) a' solved coefficient by coefficient (no exp: stays finite when tanh saturates)
+        a = self.c
+        T = [a[0].tanh()]
+        for k in range(1, len(a)):
+            # G = 1 - T*T up to order k-1
+            G = []
+            for m in range(k):
+                s = None
+                for i in range(m + 1):
+                    t = T[i] * T[m - i]
+                    s = t if s is None else s + t
+                G.append((EN(1.0) - s) if m == 0 else -s)
+            acc = None
+            for j in range(1, k + 1):
+                t = a[j] * G[k - j] * float(j)
+                acc = t if acc is None else acc + t
+            T.append(acc / float(k))
+        return Jet(T)
 
     def abs(self):
         return self if self.c[0].v >= 0 else -self
